@@ -182,7 +182,7 @@ def atomic(chk, facts):
                    ("compensated: %s; " % comp if comp else "") + ("error return reachable after %s without compensation — a failed operation changes the set" % bad if bad else "")),
                where=f.where(bad[0][1] if bad else None), fn=name, key="%s:%s" % (rule, name),
                sample={"fn": short(name), "mutations": [(d, l) for _, d, _, l, _, _ in pts][:8], "compensated": comp})
-    chk.floor(rule, "operations", n, 13)
+    chk.floor(rule, "operations", n, 12)
 
 
 def id_guards(chk, facts):
@@ -258,7 +258,7 @@ def pair_index(chk, facts):
         n += 1
         chk.ob(rule, short(name), ok, "fields written on success paths: %s; required together: %s" % (sorted(touched_on_ok), sorted(need)),
                where=f.where(), fn=name, key="%s:%s" % (rule, name), sample={"fn": short(name), "written": sorted(touched_on_ok)})
-    chk.floor(rule, "operations", n, 13)
+    chk.floor(rule, "operations", n, 12)
     index_monotone(chk, facts)
 
 
